@@ -348,6 +348,32 @@ def stepLineRaw (d : DState) (line : String) : DState × String :=
         let n := ms.toInt?.getD 0
         let s := if d.ticker && n ≥ 2500 then tick d.cfg d.s else d.s
         ({ d with s := s, ck := { d.ck with now := d.ck.now + n * 1000000 } }, "ok")
+    | ["mcount"] =>
+      -- one Count over (this swamp, a swamp never created, this swamp): answers in request order
+      let (d1, r) := stepReq d ["count"]
+      let parts := r.splitOn "\t"
+      let body := parts.headD ""
+      let flags := String.join ((parts.drop 1).map fun p => "\t" ++ p)
+      if body.startsWith "count " then (d1, s!"mcount {body.drop 6} / - / {body.drop 6}" ++ flags) else (d1, r)
+    | "mdel" :: keys =>
+      -- one Delete over (a swamp never created, this swamp): the missing swamp is an entry of its own
+      let (d1, r) := stepReq d ("del" :: keys)
+      let parts := r.splitOn "\t"
+      let body := parts.headD ""
+      let flags := String.join ((parts.drop 1).map fun p => "\t" ++ p)
+      if body.startsWith "del " then (d1, s!"mdel ERR:SwampDoesNotExist / {body.drop 4}" ++ flags) else (d1, r)
+    | "mset" :: rest =>
+      -- one Set naming this swamp twice with the same items (one request: one request number)
+      let (d1, r1) := stepReq d ("set" :: rest)
+      let p1 := r1.splitOn "\t"
+      let b1 := p1.headD ""
+      if !b1.startsWith "set " then (d1, r1)
+      else
+        let (d2, r2) := stepReq d1 ("set" :: rest)
+        let p2 := r2.splitOn "\t"
+        let b2 := p2.headD ""
+        let flags := String.join (((p1.drop 1) ++ (p2.drop 1)).eraseDups.map fun p => "\t" ++ p)
+        ({ d2 with opNo := d1.opNo }, s!"mset {b1.drop 4} / {if b2.startsWith "set " then b2.drop 4 else b2}" ++ flags)
     | "mget" :: keys =>
       -- one Get over three swamp entries (this swamp, a swamp that was never created, this swamp):
       -- a batch answers per swamp, so a missing swamp is an entry, not an error
